@@ -282,9 +282,29 @@ def run_check(prop, a, bdir, seed, t0):
             j = driver.Job(uname, f.name, "h_" + f.name, f.name, rep, [gen_c, har_c], defs, rec=f.rec, props=f.props, unwind=f.unwind)
             if f.unwind:
                 loops.pop(f.name, None)
+            j.timeout = getattr(f, "timeout", None)
+            j.unwind_fns = getattr(f, "unwind_fns", None)
             j.incdirs = [os.path.join(VERIF, "rt"), udir, ud]
             j.kf = kf_of.get(f.name, [])
-            jobs.append(j)
+            cases = getattr(f, "cases", None)
+            for alt in getattr(f, "alt_contracts", []):
+                # a second contract of the same function (for particular call sites), enforced against the same body
+                ja = driver.Job(uname, f.name + "~" + alt, "h_" + f.name, f.name, rep, [gen_c, har_c], defs, rec=f.rec, props=f.props, unwind=f.unwind)
+                ja.contract = f.name + "_" + alt
+                ja.timeout, ja.unwind_fns, ja.incdirs, ja.kf = j.timeout, j.unwind_fns, j.incdirs, []
+                jobs.append(ja)
+            if cases:
+                # the input space of f is split by an exhaustive case distinction in its contract (NITRO_CASE_<f> selects the case);
+                # every case is a separate job over the same text, f is proved when all of them are.  A case may name, per callee,
+                # the (separately enforced) contract that its call sites satisfy in this case.
+                for ci, (cname, alts) in enumerate(cases):
+                    rep_c = [r + "/" + r + "_" + alts[r] if r in alts else r for r in rep]
+                    jc = driver.Job(uname, f.name + "+" + cname, "h_" + f.name, f.name, rep_c, [gen_c, har_c], defs + ["NITRO_CASE_%s=%d" % (f.name, ci)],
+                                    rec=f.rec, props=f.props, unwind=f.unwind)
+                    jc.timeout, jc.unwind_fns, jc.incdirs, jc.kf = j.timeout, j.unwind_fns, j.incdirs, j.kf
+                    jobs.append(jc)
+            else:
+                jobs.append(j)
             for k in j.kf:
                 # region run: is the listed finding still present?  quick: one representative function per finding
                 if prop not in k.get("properties", []) or not (a.tier == "thorough" or k.get("functions", [None])[0] == f.name):
@@ -295,7 +315,8 @@ def run_check(prop, a, bdir, seed, t0):
                 j2.kf = [k]
                 j2.is_full = True
                 jobs.append(j2)
-                loops[j2.name] = f.loops
+                if not f.unwind:
+                    loops[j2.name] = f.loops
         for lem in unit.lemmas:
             if prop not in lem.props:
                 continue
